@@ -37,7 +37,15 @@ public:
     ConstPoolNode* global_const_pool = compiler._const_pools[uint32_t(ConstPoolScope::kGlobal)];
 
     if (global_const_pool) {
-      compiler.add_after(global_const_pool, compiler.last_node());
+      BaseNode* last = compiler.last_node();
+      if (last) {
+        compiler.add_after(global_const_pool, last);
+      }
+      else {
+        // All nodes were removed - the constant pool becomes the only node.
+        compiler.set_cursor(nullptr);
+        compiler.add_node(global_const_pool);
+      }
       compiler._const_pools[uint32_t(ConstPoolScope::kGlobal)] = nullptr;
     }
 
